@@ -172,8 +172,15 @@ func (r *metricReader) readSeriesData(ctx *flow.DataLoadContext, seriesIdx uint1
 	fieldCount := r.fields.Len()
 	if fieldCount == 1 {
 		decoder.ResetWithTimeRange(seriesEntryBlock, r.timeRange.Start, r.timeRange.End)
-		// metric has one field, just read the data
-		ctx.DownSampling(r.timeRange, seriesIdx, 0, decoder)
+		// metric has one field, just read the data.
+		// NOTE: need use the index of query fields which the block's field maps to, query maybe has other fields
+		// before it(field not in this block), cannot use 0 directly.
+		for queryIdx, readIdx := range r.readFieldIndexes {
+			if readIdx != fieldNotFound {
+				ctx.DownSampling(r.timeRange, seriesIdx, queryIdx, decoder)
+				break
+			}
+		}
 		return
 	}
 
